@@ -101,7 +101,7 @@ func (c *Component) Resume() error {
 	case stanza.Handshake:
 		// Start the receiver go routine
 		c.updateState(StateSessionEstablished)
-		go c.recv()
+		go c.recv(c.transport)
 		return err // Should be empty at this point
 	default:
 		c.updateState(StatePermanentError)
@@ -122,11 +122,18 @@ func (c *Component) SetHandler(handler EventHandler) {
 	c.Handler = handler
 }
 
-// Receiver Go routine receiver
-func (c *Component) recv() {
+// Receiver Go routine receiver. It reads the connection it was started for, and only that one: a handler
+// or a callback may replace c.transport (Connect/Resume) while this loop runs, and what arrives on a
+// connection whose handshake the server has not accepted must never be routed.
+func (c *Component) recv(transport Transport) {
 	for {
-		val, err := stanza.NextPacket(c.transport.GetDecoder())
+		val, err := stanza.NextPacket(transport.GetDecoder())
 		if err != nil {
+			if c.transport != transport {
+				// The application has moved on to another connection: its state is not ours to change.
+				c.ErrorHandler(err)
+				return
+			}
 			c.updateState(StateDisconnected)
 			c.ErrorHandler(err)
 			return
@@ -139,12 +146,12 @@ func (c *Component) recv() {
 			// The stream is over: close our side (this waits for the server's stream close tag, or times out),
 			// then tell the application, which may reconnect from the callback - this loop must neither close
 			// nor read the connection it establishes there.
-			c.Disconnect()
+			transport.Close()
 			c.streamError(p.Error.Local, p.Text)
 			return
 		case stanza.StreamClosePacket:
 			// TCP messages should arrive in order, so we can expect to get nothing more after this occurs
-			c.transport.ReceivedStreamClose()
+			transport.ReceivedStreamClose()
 			return
 		}
 		c.router.route(c, val)
